@@ -135,9 +135,10 @@ def events():
                     w.call(proto.connection_lost, None)
                     exp = (0, 1, 0)
                 elif how == "peer-close":
-                    # asyncio delivers an orderly close by the peer as connection_lost(None); the
-                    # threaded readers never do (they report it through the watchdog / an error)
-                    if kind == "threaded":
+                    # the asyncio TCP transport delivers an orderly close by the peer (FIN) as
+                    # connection_lost(None); the threaded readers report it through the watchdog /
+                    # an error, and serial_asyncio only ever passes None after a user close
+                    if kind != "async-tcp":
                         w.goal(how)
                         return
                     proto.transport = conn
